@@ -329,9 +329,9 @@ class Roles:
         for _ in range(8):
             changed = False
             for n in walk_no_nested(f.node):
-                if isinstance(n, ast.Assign):
+                if isinstance(n, (ast.Assign, ast.AnnAssign)) and getattr(n, 'value', None) is not None:
                     rs = self.expr_roles(n.value, vr)
-                    for t in n.targets:
+                    for t in (n.targets if isinstance(n, ast.Assign) else [n.target]):
                         for x in ast.walk(t):
                             if isinstance(x, ast.Name):
                                 cur = vr.setdefault(x.id, set())
@@ -607,4 +607,43 @@ def check_k8(ctx, rep, f, roles: Roles):
             rep.holds(RULE + '.K8', f, loop, 'the number of answer rows is compared with a reference-derived size ({}): a truncated answer is rejected'.format(u(found)))
         else:
             rep.violates(RULE + '.K8', f, loop, 'the rows of the answer are compared position by position with the reference table {} but the NUMBER of answer rows is never compared with a size derived from the reference: an answer with rows missing is judged only on the rows that are there and gets OK'.format(u(tables[0].value)))
+    return n
+
+
+def check_k9(ctx, rep, f, roles: Roles):
+    """state names of a submitted automaton are arbitrary spellings: a checker that owns a DECODER for them (a nested helper
+    turning a label into the set of states it stands for) must compare answer labels with reference-derived names through
+    that decoder, never as raw text -- `{q1,q0}` and `{q0,q1}` are the same subset"""
+    decoders = [g for g in f.nested.values() if len([p for p in g.params]) == 1 and any(
+        isinstance(r, ast.Return) and r.value is not None and isinstance(r.value, ast.Call) and isinstance(r.value.func, ast.Name) and r.value.func.id == 'set' for r in walk_no_nested(g.node))
+        and any(isinstance(c, ast.Call) and isinstance(c.func, ast.Attribute) and c.func.attr == 'split' for c in ast.walk(g.node))]
+    if not decoders:
+        return 0
+    dec = {g.name for g in decoders}
+    vr = roles.var_roles(f)
+    n = 0
+
+    def raw_role(e):
+        # role of an expression that is NOT wrapped by the decoder
+        if isinstance(e, ast.Call) and isinstance(e.func, ast.Name) and e.func.id in dec:
+            return None
+        rs = Roles.expr_roles(e, vr)
+        return next(iter(rs)) if len(rs) == 1 else None
+
+    for c in walk_no_nested(f.node):
+        if not (isinstance(c, ast.Compare) and len(c.ops) == 1 and isinstance(c.ops[0], (ast.In, ast.NotIn, ast.Eq, ast.NotEq))):
+            continue
+        a, b = c.left, c.comparators[0]
+        ra, rb = raw_role(a), raw_role(b)
+        if {ra, rb} != {'answer', 'reference'}:
+            continue
+        # only names of states are at stake: skip alphabets and sizes
+        txt = u(c)
+        if any(k in txt for k in ('Sigma', 'len(')):
+            continue
+        n += 1
+        rep.violates(RULE + '.K9', f, c, '`{}` compares a state name of the answer with names computed by the library as raw text, although this checker decodes labels with {}(): an answer that spells a subset as {{q1,q0}} instead of {{q0,q1}} is judged by its spelling, so a wrong marking can pass and a right one fail'.format(txt, sorted(dec)[0]))
+    if n == 0:
+        rep.holds(RULE + '.K9', f, 'def ' + f.name, 'answer labels meet reference-derived names only through the decoder {}()'.format(sorted(dec)[0]))
+        n = 1
     return n
